@@ -180,13 +180,20 @@ theorem leader_shreds_validate (env : Env) (L : env.Laws) (v : Variant) (sl : Sl
     simp only [Bool.and_eq_true, decide_eq_true_eq] at hcp
     unfold Shred.sliceRoot
     rw [hcp.2, hroot]
+  -- the created path consumes the whole index (what `try_new` asks for since the D32 fix)
+  have hcons : s.shred.indexConsumed = true := by
+    unfold checkProof checkHashProof at hcp
+    simp only [Bool.and_eq_true, decide_eq_true_eq] at hcp
+    have := hcp.1.2
+    rw [deriveRootIdx_snd] at this
+    simp [Shred.indexConsumed, this]
   refine ⟨?_, ?_, hcp⟩
-  · unfold validate
-    simp only [hder, hsig, hhdr, hroot, Sig.verify, decide_true, if_true]
+  · unfold validate validateOld
+    simp only [hcons, Bool.not_true, Bool.false_eq_true, if_false, hder, hsig, hhdr, hroot, Sig.verify, decide_true, if_true]
     cases s; simp_all
   · intro pk
-    unfold validate
-    simp only [hder, hhdr, hroot, if_true]
+    unfold validate validateOld
+    simp only [hcons, Bool.not_true, Bool.false_eq_true, if_false, hder, hhdr, hroot, if_true]
     cases s; simp_all
 
 /-! ### fewer than 32 shreds, errors, untouched input -/
